@@ -48,7 +48,7 @@ CHECKS = {
         level="Voter and collector scenarios on one real node with generated vote sets, plus monitors on every correct node's view-change output in generated cluster executions.",
         note=SIM_NOTE),
     "C11": dict(engine="S", technique="stateful property-based testing (rapid): acceptance oracle at every delivery of honest traffic in adversarial executions",
-        level="Whenever a correct node's message reaches a correct peer in a state matching the statement's precondition, the accepting effect must occur; adversary strategies that contaminate logs (outsider/Byzantine PREPARE/COMMIT/VIEW_CHANGE variants, re-wraps) are emphasised. The clone-by-replay variant of the design (judging at emission against every peer) is not built; acceptance is judged when the schedule delivers.",
+        level="Whenever a correct node's message reaches a correct peer in a state matching the statement's precondition, the accepting effect must occur; adversary strategies that contaminate logs (outsider/Byzantine PREPARE/COMMIT/VIEW_CHANGE variants, re-wraps) are emphasised. A second test clones every correct peer by replay at emission time and judges acceptance at once (few cases in quick, many in thorough).",
         note=SIM_NOTE),
     "C02": dict(engine="P+F", technique="property-based testing (rapid) + native coverage-guided fuzzing, differential against an independent reference validator",
         level="Genuine certificates cut exactly at the quorum / f thresholds, then field mutations and byte surgery; one-directional oracle as the property states (accept => reference-valid), panics are violations; accept rate on reference-valid proofs is measured (anti-vacuity).",
